@@ -225,3 +225,79 @@ func VerifC05_CatalogTxn(st any) {
 		verifrt.Reached("rolled-back")
 	}
 }
+
+// Every conditional catalog verb compares with what earlier operations of the same transaction left:
+// [set or delete X, cas / delete-cas X @cidx] for X a node, a service or a check.
+func VerifC05_CatalogTxnSeesEarlierOps() {
+	s := NewStateStore(nil)
+	must := func(err error) {
+		if err != nil {
+			panic(err)
+		}
+	}
+	must(s.EnsureNode(1, &structs.Node{Node: "n1", Address: "10.0.0.1"}))
+	must(s.EnsureService(2, "n1", &structs.NodeService{ID: "s1", Service: "web", Port: 80}))
+	must(s.EnsureCheck(3, &structs.HealthCheck{Node: "n1", CheckID: "c1", ServiceID: "s1", Status: api.HealthPassing}))
+	idx := verifrt.U64("idx")
+	verifrt.Assume(idx > 3 && idx < 1<<62)
+	cidx := verifrt.U64("cidx")
+	ri := structs.RaftIndex{ModifyIndex: cidx}
+	firstDeletes := verifrt.Bool("first.deletes")
+	secondDeletes := verifrt.Bool("second.deletes")
+	var first, second *structs.TxnOp
+	entity := verifrt.Choice("entity", 3)
+	switch entity {
+	case 0:
+		first = &structs.TxnOp{Node: &structs.TxnNodeOp{Verb: api.NodeSet, Node: structs.Node{Node: "n1", Address: "10.0.0.9"}}}
+		if firstDeletes {
+			first.Node.Verb = api.NodeDelete
+		}
+		second = &structs.TxnOp{Node: &structs.TxnNodeOp{Verb: api.NodeCAS, Node: structs.Node{Node: "n1", Address: "10.0.0.7", RaftIndex: ri}}}
+		if secondDeletes {
+			second.Node.Verb = api.NodeDeleteCAS
+		}
+	case 1:
+		first = &structs.TxnOp{Service: &structs.TxnServiceOp{Verb: api.ServiceSet, Node: "n1", Service: structs.NodeService{ID: "s1", Service: "web", Port: 81}}}
+		if firstDeletes {
+			first.Service.Verb = api.ServiceDelete
+		}
+		second = &structs.TxnOp{Service: &structs.TxnServiceOp{Verb: api.ServiceCAS, Node: "n1", Service: structs.NodeService{ID: "s1", Service: "web", Port: 82, RaftIndex: ri}}}
+		if secondDeletes {
+			second.Service.Verb = api.ServiceDeleteCAS
+		}
+	default:
+		first = &structs.TxnOp{Check: &structs.TxnCheckOp{Verb: api.CheckSet, Check: structs.HealthCheck{Node: "n1", CheckID: "c1", ServiceID: "s1", Status: api.HealthCritical}}}
+		if firstDeletes {
+			first.Check.Verb = api.CheckDelete
+		}
+		second = &structs.TxnOp{Check: &structs.TxnCheckOp{Verb: api.CheckCAS, Check: structs.HealthCheck{Node: "n1", CheckID: "c1", ServiceID: "s1", Status: api.HealthWarning, RaftIndex: ri}}}
+		if secondDeletes {
+			second.Check.Verb = api.CheckDeleteCAS
+		}
+	}
+	_, errs := s.TxnRW(idx, structs.TxnOps{first, second})
+	// after the first op the entity is absent, or present with modify index idx
+	var matched bool
+	switch {
+	case firstDeletes && secondDeletes:
+		matched = false // nothing to delete
+	case firstDeletes:
+		matched = cidx == 0 // create-if-absent
+	default:
+		matched = cidx == idx
+	}
+	name := []string{"node", "service", "check"}[entity]
+	if matched {
+		verifrt.Assert("C05.catalog."+name+".cas-sees-earlier-op", len(errs) == 0)
+		verifrt.Reached("committed")
+	} else {
+		verifrt.Assert("C05.catalog."+name+".stale-cas-fails-the-transaction", len(errs) == 1 && errs[0].OpIndex == 1)
+		// and nothing of the first operation is left
+		_, node, _ := s.GetNode("n1", nil, "")
+		_, svc, _ := s.NodeService(nil, "n1", "s1", nil, "")
+		_, chk, _ := s.NodeCheck("n1", "c1", nil, "")
+		verifrt.Assert("C05.catalog."+name+".rolled-back", node != nil && node.Address == "10.0.0.1" && svc != nil && svc.Port == 80 &&
+			chk != nil && chk.Status == api.HealthPassing)
+		verifrt.Reached("rolled-back")
+	}
+}
